@@ -661,21 +661,20 @@ Section RefsP.
     option_map ov (dict_get obj d1 a) = option_map ov (dict_get obj d2 a).
   Proof.
     induction d1 as [|[k o] r IH]; destruct d2 as [|[k' o'] r']; simpl; intros a H; try discriminate; [reflexivity|].
-    inversion H; subst. destruct (String.eqb k' a); [simpl; f_equal; assumption | apply IH; assumption].
+    inversion H; subst. destruct (String.eqb k' a); [simpl; unfold ov; congruence | apply IH; assumption].
   Qed.
 
   Lemma add_defs_v : forall refs os1 os2 d1 d2, map ov os1 = map ov os2 -> dictv d1 = dictv d2 ->
     dictv (add_defs refs d1 os1) = dictv (add_defs refs d2 os2).
   Proof.
-    intros refs. induction os1 as [|o r IH]; destruct os2 as [|o' r']; simpl; intros d1 d2 H D; try discriminate; [exact D|].
-    inversion H as [[Ho Hr]]. rewrite !add_defs_cons. apply IH; [exact Hr|].
-    assert (oid o = oid o') by (unfold ov in Ho; congruence). rewrite H0.
-    destruct (mem_str (oid o') refs); [simpl; rewrite Ho, D; reflexivity | exact D].
+    intros refs. induction os1 as [|o r IH]; destruct os2 as [|o' r']; intros d1 d2 H D; simpl in H; try discriminate; [exact D|].
+    inversion H as [[Ho Hv Hr]]. rewrite !add_defs_cons. apply IH; [exact Hr|]. rewrite Ho.
+    destruct (mem_str (oid o') refs); [simpl; unfold ov; rewrite Ho, Hv, D; reflexivity | exact D].
   Qed.
 
   Lemma slotv_shape : forall s1 s2 : slot, slotv s1 = slotv s2 ->
     fst s1 = fst s2 /\ option_map ov (snd s1) = option_map ov (snd s2).
-  Proof. intros [a1 e1] [a2 e2] H. unfold slotv in H. simpl in *. inversion H. split; assumption. Qed.
+  Proof. intros [a1 e1] [a2 e2] H. unfold slotv in H. simpl in *. injection H as H1 H2. split; assumption. Qed.
 
   Definition fill_rel (r1 r2 : fillres obj) : Prop :=
     match r1, r2 with
@@ -713,10 +712,10 @@ Section RefsP.
   Proof.
     intros dm1 db1 dm2 db2 Dm Db. induction cs1 as [|l1 r1 IH]; destruct cs2 as [|l2 r2]; intros h1 h2 n1 n2 N1 N2 E;
       try discriminate; [simpl; reflexivity|].
-    simpl in E. inversion E as [[Eh Er]]. inversion N1 as [|? ? Nl1 Nr1]; subst. inversion N2 as [|? ? Nl2 Nr2]; subst.
+    simpl in E. injection E as Eid Erest Ema Eme Eba Ebe Er. inversion N1 as [|? ? Nl1 Nr1]; subst. inversion N2 as [|? ? Nl2 Nr2]; subst.
     rewrite !loop_cons.
-    assert (Sm : slotv (k_m (h1 l1)) = slotv (k_m (h2 l2))) by (unfold cellv in Eh; congruence).
-    assert (Sb : slotv (k_b (h1 l1)) = slotv (k_b (h2 l2))) by (unfold cellv in Eh; congruence).
+    assert (Sm : slotv (k_m (h1 l1)) = slotv (k_m (h2 l2))) by (unfold slotv; rewrite Ema, Eme; reflexivity).
+    assert (Sb : slotv (k_b (h1 l1)) = slotv (k_b (h2 l2))) by (unfold slotv; rewrite Eba, Ebe; reflexivity).
     pose proof (fill_sim dm1 dm2 n1 n2 _ _ Dm Sm) as Fm.
     destruct (fill dm1 n1 (k_m (h1 l1))) as [sm1 m1|]; destruct (fill dm2 n2 (k_m (h2 l2))) as [sm2 m2|];
       simpl in Fm; try contradiction; [|exact I].
@@ -734,22 +733,24 @@ Section RefsP.
     destruct (cells_loop dm1 db1 r1 g1 k1) as [h1' j1|h1']; destruct (cells_loop dm2 db2 r2 g2 k2) as [h2' j2|h2'];
       simpl in IH; try contradiction; [|exact I].
     simpl. rewrite IH. f_equal. rewrite (F1 l1 Nl1), (F2 l2 Nl2). unfold g1, g2. rewrite !upd_same.
-    unfold cellv. simpl. unfold cellv in Eh. inversion Eh. rewrite Fm, Fb. reflexivity.
+    unfold cellv. simpl. rewrite Eid, Erest, Fm, Fb. reflexivity.
   Qed.
 
   Lemma cell_refs_v : forall c1 c2 : cellrec, cellv c1 = cellv c2 -> cell_refs obj c1 = cell_refs obj c2.
   Proof.
-    intros c1 c2 H. unfold cellv in H. inversion H as [[_ _ Hm Hb]]. unfold cell_refs.
-    apply slotv_shape in Hm. apply slotv_shape in Hb. destruct Hm as [Am Em]. destruct Hb as [Ab Eb].
+    intros c1 c2 H. unfold cellv in H. injection H as Hid Hrest Am Em Ab Eb. unfold cell_refs.
     destruct (k_m c1) as [a1 [e1|]]; destruct (k_m c2) as [a2 [e2|]]; simpl in *; try discriminate; subst;
       destruct (k_b c1) as [b1 [f1|]]; destruct (k_b c2) as [b2 [f2|]]; simpl in *; try discriminate; subst; reflexivity.
   Qed.
+
+  Lemma cons_inj : forall (A : Type) (x y : A) a b, x :: a = y :: b -> x = y /\ a = b.
+  Proof. intros A x y a b H. injection H. auto. Qed.
 
   Lemma referenced_v : forall (h1 h2 : heap) cs1 cs2,
     map (fun l => cellv (h1 l)) cs1 = map (fun l => cellv (h2 l)) cs2 -> referenced obj h1 cs1 = referenced obj h2 cs2.
   Proof.
     intros h1 h2. induction cs1 as [|l1 r1 IH]; destruct cs2 as [|l2 r2]; simpl; intro H; try discriminate; [reflexivity|].
-    inversion H as [[Eh Er]]. unfold referenced in *. simpl. rewrite (cell_refs_v _ _ Eh), (IH r2 Er). reflexivity.
+    apply cons_inj in H. destruct H as [Eh Er]. unfold referenced in *. simpl. rewrite (cell_refs_v _ _ Eh), (IH r2 Er). reflexivity.
   Qed.
 
   Definition load_rel (r1 r2 : option (list obj * list obj * nat)) : Prop :=
